@@ -163,7 +163,7 @@ def marker_value(draw, mk, kinds=VALUE_KINDS):
 class StmtGen:
     """draw-driven builder of one statement program; subclasses / options steer what is generated"""
 
-    def __init__(self, draw, cls, mk=None, value_kinds=("int", "str", "float", "negint"), depth=2, names=None, aliases=True, features=None):
+    def __init__(self, draw, cls, mk=None, value_kinds=("int", "str", "float", "negint"), depth=2, names=None, aliases=True, features=None, alias_cols=False):
         self.draw = draw
         self.cls = cls
         self.mk = mk or Markers()
@@ -171,6 +171,7 @@ class StmtGen:
         self.depth = depth
         self.aliases = aliases
         self.features = features  # None = everything
+        self.alias_cols = alias_cols  # also alias terms outside the select list (WHERE / GROUP BY / HAVING / ORDER BY / ON operands)
         self.nalias = 0
 
     # -- helpers
@@ -190,7 +191,10 @@ class StmtGen:
         return "%s%d" % (prefix, self.nalias)
 
     def col(self, keys):
-        return ["col", self.d(st.sampled_from(keys)), self.d(st.sampled_from(COLS))]
+        c = ["col", self.d(st.sampled_from(keys)), self.d(st.sampled_from(COLS))]
+        if self.alias_cols and self.d(st.integers(0, 9)) < 3:
+            return ["as", c, self.alias("ca")]
+        return c
 
     def term(self, keys, depth=2):
         c = self.d(st.integers(0, 9))
@@ -235,7 +239,8 @@ class StmtGen:
         return [self.d(st.sampled_from(("isnull", "notnull"))), left]
 
     def subselect(self, ncols=1, alias_terms=False):
-        g = StmtGen(self.draw, "inherit", self.mk, self.value_kinds, self.depth - 1, aliases=self.aliases, features=self.features)
+        g = StmtGen(self.draw, "inherit", self.mk, self.value_kinds, self.depth - 1, aliases=self.aliases, features=self.features, alias_cols=self.alias_cols)
+        g.nalias = self.nalias + 100
         return g.select(ncols=ncols, alias_terms=alias_terms)
 
     def src_key(self):
